@@ -133,8 +133,10 @@ func (e *Engine) verifyFunction(fn *ssa.Function, impl *Contract) (un *Unit, err
 			for _, en := range ct.Ensures {
 				// each postcondition is checked on its own: a failing clause must not make the following ones vacuous
 				cst := r.st.clone()
-				g := f.evalClause(en, penv, &cst, &f.entry)
-				un.obligeNamed(&cst, fmt.Sprintf("ensures#%s@ret%d", en.label(), i+1), "postcondition", en.Text+" [return at "+r.pos+"]", en.Pos, g)
+				gs := f.evalGoals(en, penv, &cst, &f.entry)
+				for gi, g := range gs {
+					un.obligeNamed(&cst, fmt.Sprintf("ensures#%s%s@ret%d", en.label(), partSuffix(gi, len(gs)), i+1), "postcondition", en.Text+" [return at "+r.pos+"]", en.Pos, g)
+				}
 			}
 			if ct.HasMod {
 				f.frameObligations(ct, penv, r, i+1)
@@ -331,6 +333,11 @@ func (f *Frame) emitAxioms() {
 			un.inQuant--
 			var hv []Term
 			for _, k := range sortedKeys(un.axHeaps) {
+				if strings.HasPrefix(k, "C_") || strings.HasPrefix(k, "G_") {
+					// an axiom is quantified over every heap it reads: reading a program or ghost VARIABLE would
+					// claim something about all possible memories (inconsistent)
+					panic(unsupported{"axiom " + ax.Name + " reads a variable (" + k + "): axioms may only mention spec functions; use `global-const` for constants"})
+				}
 				hv = append(hv, un.axHeaps[k])
 			}
 			un.axHeaps = nil
